@@ -82,9 +82,20 @@ impl SplitMix {
     }
 }
 const ITEM_ALPHA: &[u8] = b"abAB$\\ -c/";
+const NON_ASCII: &[char] = &['é', 'É', 'ß', 'ä', 'Ä', 'ñ', '漢'];
+// (mirrors gen::rstr draw for draw, including the one string in eight with non-ASCII characters)
 fn rstr(rng: &mut SplitMix, lo: u64, hi: u64) -> String {
     let n = lo + rng.below(hi - lo + 1);
-    (0..n).map(|_| ITEM_ALPHA[rng.below(ITEM_ALPHA.len() as u64) as usize] as char).collect()
+    let exotic = n > 0 && rng.below(8) == 0;
+    (0..n)
+        .map(|_| {
+            if exotic && rng.below(3) == 0 {
+                NON_ASCII[rng.below(NON_ASCII.len() as u64) as usize]
+            } else {
+                ITEM_ALPHA[rng.below(ITEM_ALPHA.len() as u64) as usize] as char
+            }
+        })
+        .collect()
 }
 
 fn run_writer(inj: &Injector<Item>, ops: &[WOp], cols: usize) {
